@@ -237,8 +237,8 @@ class RefAsm:
 
     def stmt(self, st, scope):
         k = st[0]
-        if k == "comment":
-            return
+        if k in ("comment", "map"):
+            return  # the bus model handed to RefAsm already reflects the .map declarations
         if k == "org":
             t = self.pos_value(st[1], scope)
             try:
